@@ -289,6 +289,10 @@ impl Incremental {
 fn global_key(metadata: &Metadata, defines: &[String]) -> Option<String> {
     let build = toml::to_string(&metadata.build).ok()?;
     let lint = toml::to_string(&metadata.lint).ok()?;
+    // The emitter lays out its output by `[format]`, and `[properties]` are
+    // `$prop::` constants folded into pass1/emit results.
+    let format = toml::to_string(&metadata.format).ok()?;
+    let properties = toml::to_string(&metadata.properties).ok()?;
     let lockfile = fs::read_to_string(&metadata.lockfile_path).unwrap_or_default();
     let defines = defines.join("\x1f");
     // Keyed on the binary itself, not just the version (see binary_fingerprint).
@@ -299,6 +303,8 @@ fn global_key(metadata: &Metadata, defines: &[String]) -> Option<String> {
         &metadata.project.name,
         &build,
         &lint,
+        &format,
+        &properties,
         &lockfile,
         &defines,
     ]))
